@@ -32,6 +32,7 @@ pub struct Info {
   pub by_final: HashMap<KeyCode, Vec<usize>>,
   pub sole: Vec<Vec<KeyCode>>,
   pub all_absorbing_tagged: bool,
+  pub absorbable: KeySet, // keys named in some mapping's absorbing list
   pub alphabet: KeySet,
   pub foreign: KeySet,
 }
@@ -77,7 +78,13 @@ impl Info {
     }
     let absorbing = has_absorbing(layout);
     let all_absorbing_tagged = layout.mappings.iter().enumerate().all(|(i, m)| m.absorbing.is_empty() || tag_of[i].is_some());
-    Info { layout: layout.clone(), absorbing, tag_owner, tag_of, all_keys, never_output, by_final, sole, all_absorbing_tagged, alphabet, foreign }
+    let mut absorbable = KeySet::new();
+    for m in &layout.mappings {
+      for a in &m.absorbing {
+        absorbable.insert(*a);
+      }
+    }
+    Info { layout: layout.clone(), absorbing, tag_owner, tag_of, all_keys, never_output, by_final, sole, all_absorbing_tagged, absorbable, alphabet, foreign }
   }
 
   // the property text of C03 in ten lines: last listed mapping whose final trigger key is k
@@ -530,6 +537,16 @@ impl Mon {
         if fired_nr.is_none() {
           if let ResultingRepeat::Repeating { .. } = repeat {
             fired_nr = Some(None);
+          }
+        }
+        // a firing that is certain although it cannot be observed: a new press of k, every
+        // mapping on k whose trigger keys are all held is a no-repeat mapping, and none of
+        // their other trigger keys can ever be absorbed (so the mapper cannot have forgotten
+        // one): whichever of them the mapper takes, a no-repeat mapping fires
+        if fired_nr.is_none() && is_press && acted_phys {
+          let sat: Vec<usize> = info.by_final.get(&k).map(|v| v.iter().cloned().filter(|i| phys_after.contains_all(&info.m(*i).from)).collect()).unwrap_or_default();
+          if !sat.is_empty() && sat.iter().all(|i| is_norepeat(info.m(*i)) && info.m(*i).from.iter().all(|t| *t == k || !info.absorbable.contains(*t))) {
+            fired_nr = Some(if sat.len() == 1 { Some(sat[0]) } else { None });
           }
         }
       }
